@@ -26,6 +26,7 @@ def trace_cfg(test_mode, qmax, pp_interval=2, skip_fix=True):
             "  SkipFix = %s" % ("TRUE" if skip_fix else "FALSE"),
             "  CctFix = TRUE",
             "  SelfFailFix = TRUE",
+            "  StaleResetFix = TRUE",
             "  FlushFix = TRUE",
             "  QMax = %d" % qmax,
             "  PPInterval = %d" % pp_interval,
@@ -71,6 +72,10 @@ def behaviours(ctx, out, num, depth, cfg="RaceDriver.sim.cfg", seed_off=0, with_
     if not res.ok:
         raise tlc.MachineryError("simulation reported a model violation: %s" % res.out[-2000:])
     out.add_tlc(res)
+    return _parse_behaviours(simdir, with_fault)
+
+
+def _parse_behaviours(simdir, with_fault):
     result = []
     for fn in sorted(glob.glob(os.path.join(simdir, "b_*"))):
         with open(fn, "r", encoding="utf-8") as f:
@@ -91,6 +96,94 @@ def behaviours(ctx, out, num, depth, cfg="RaceDriver.sim.cfg", seed_off=0, with_
             script.append((str(a["name"]), arg))
         result.append((scn, script, fault) if with_fault else (scn, script))
     return result
+
+
+# ---- generated scenario family: schedules drawn by the harness (seeded), given to TLC as the constant set `Scenarios`
+ETERNAL, TIMED = -1, -2
+
+
+def gen_scenarios(rnd, n):
+    """n random VALID schedules: 1-2 elements; the first a task or a parallel of 2-3 tasks (plain / completed-by <task> /
+    completed-by any; 1-2 clients per task; iteration-based, time-period based or eternal; optional clients cap =
+    over-commitment), <= 3 clients, 1-3 cores. Valid = the race can end: the named task ends by itself, with `any` some task
+    does, eternal tasks only next to a completing task and never in an over-committed element."""
+    res, seen = [], set()
+    while len(res) < n:
+        k = rnd.choice([1, 2, 2, 2, 3])
+        mode = rnd.choice(["plain", "cp", "cp", "acp"]) if k > 1 else "plain"
+        named = rnd.randrange(k) if mode == "cp" else None
+        cap = rnd.choice([0, 0, 0, 1, 2]) if k > 1 else 0
+        tasks = []
+        for i in range(k):
+            clients = rnd.choice([1, 1, 2])
+            if mode == "cp" and i == named:
+                reqs = rnd.choice([1, 2, 2, TIMED])
+            elif mode == "cp":
+                reqs = rnd.choice([1, 2, ETERNAL, ETERNAL, TIMED])
+            elif mode == "acp":
+                reqs = rnd.choice([1, 2, 3, ETERNAL, TIMED])
+            else:
+                reqs = rnd.choice([1, 2, TIMED])
+            tasks.append({"id": i + 1, "clients": clients, "reqs": reqs, "cp": mode == "cp" and i == named, "acp": mode == "acp"})
+        total = sum(t["clients"] for t in tasks)
+        over = cap and cap < total
+        if over and any(t["reqs"] == ETERNAL for t in tasks):
+            continue
+        if mode == "acp" and all(t["reqs"] == ETERNAL for t in tasks):
+            continue
+        m1 = cap if cap else total
+        sched = [{"tasks": tasks, "cap": cap}]
+        if rnd.random() < 0.75:
+            sched.append({"tasks": [{"id": k + 1, "clients": rnd.choice([1, 2, 3]), "reqs": 1, "cp": False, "acp": False}], "cap": 0})
+        if rnd.random() < 0.2:
+            sched.reverse()  # the parallel element comes second
+            ids = iter(range(1, 10))
+            for e in sched:
+                for t in e["tasks"]:
+                    t["id"] = next(ids)
+        m = max(max((e["cap"] if e["cap"] else sum(t["clients"] for t in e["tasks"])) for e in sched), 1)
+        if m > 3 or m1 > 3:
+            continue
+        cores = rnd.choice([1, 2, 2, 3, 3])
+        key = repr((sched, cores))
+        if key in seen:
+            continue
+        seen.add(key)
+        res.append({"sched": sched, "cores": cores})
+    return res
+
+
+def _tla_scenario(g):
+    def num(r):
+        return {ETERNAL: "Eternal", TIMED: "Timed"}.get(r, str(r))
+
+    elems = []
+    for e in g["sched"]:
+        ts = ", ".join("%s(%d, %d, %s)" % ("CP" if t["cp"] else ("ACP" if t["acp"] else "T"), t["id"], t["clients"], num(t["reqs"])) for t in e["tasks"])
+        elems.append("E(<<%s>>, %d)" % (ts, e["cap"]))
+    return "S(<<%s>>, <<>>, %d)" % (", ".join(elems), g["cores"])
+
+
+def behaviours_gen(ctx, out, n_scn, num, depth, seed_off=0):
+    """TLC -simulate behaviours over a GENERATED scenario family (model-side invariants are checked by TLC while simulating)."""
+    rnd = random.Random(ctx.seed * 1009 + 77 + seed_off)
+    gens = gen_scenarios(rnd, n_scn)
+    wd = tlc.prepare_workdir("RaceDriver", "racegen")
+    with open(os.path.join(wd, "MC_Gen.tla"), "w", encoding="utf-8") as f:
+        f.write("---- MODULE MC_Gen ----\nEXTENDS MC_RaceDriver\nGenScenarios == {\n  %s\n}\n====\n" % ",\n  ".join(_tla_scenario(g) for g in gens))
+    with open(os.path.join(wd, "RaceDriver.sim.cfg"), "r", encoding="utf-8") as f:
+        cfg = f.read().replace("Scenarios <- ThoroughScenarios", "Scenarios <- GenScenarios")
+    if "GenScenarios" not in cfg:
+        raise tlc.MachineryError("RaceDriver.sim.cfg no longer names ThoroughScenarios")
+    with open(os.path.join(wd, "RaceDriver.gen.cfg"), "w", encoding="utf-8") as f:
+        f.write(cfg)
+    simdir = os.path.join(wd, "sim")
+    os.makedirs(simdir)
+    res = tlc.run_tlc(wd, "MC_Gen", "RaceDriver.gen.cfg", workers=1, simulate={"num": num, "file": os.path.join(simdir, "b")}, depth=depth, seed=ctx.seed + 303 + seed_off, timeout=900)
+    if not res.ok:
+        raise tlc.MachineryError("simulation over generated scenarios reported a model violation: %s" % res.out[-2500:])
+    out.add_tlc(res)
+    return _parse_behaviours(simdir, False), len(gens)
 
 
 def scn_signature(scn):
